@@ -9,6 +9,7 @@ import (
 	"runtime"
 	"strings"
 	"sync"
+	"sync/atomic"
 	"testing"
 	"time"
 
@@ -45,7 +46,13 @@ type Case struct {
 	SharedCancelUs  int      `json:"shared_cancel_us"` // 0 = never
 	// CancelParent: the shared cancellation hits the context WithBatching was called on (a
 	// request context that ends), not a context derived from the batching context
-	CancelParent bool  `json:"cancel_parent,omitempty"`
+	CancelParent bool `json:"cancel_parent,omitempty"`
+	// ShareHolder: with a limiter, callers are goroutines of one request: they share the
+	// context of a single Acquire instead of acquiring a token each (all of them when the
+	// limit is 1, the even-numbered ones otherwise - the others then compete for the rest)
+	ShareHolder bool `json:"share_holder,omitempty"`
+	// LimiterGapUs: pause at the limiter's re-acquire yield site
+	LimiterGapUs int   `json:"limiter_gap_us,omitempty"`
 	Yields       []int `json:"yields,omitempty"` // microseconds to sleep at the k-th yield site hit
 }
 
@@ -63,7 +70,16 @@ var yieldState struct {
 	active bool
 }
 
+// limiterGapUs: pause (microseconds) at the limiter's yield site between a holder's token going
+// back into the channel and its status saying "acquired" again (0 = none)
+var limiterGapUs int64
+
 func init() {
+	cl.VerifYield = func(site string) {
+		if d := atomic.LoadInt64(&limiterGapUs); d > 0 {
+			time.Sleep(time.Duration(d) * time.Microsecond)
+		}
+	}
 	batch.VerifYield = func(site string) {
 		yieldState.mu.Lock()
 		if !yieldState.active {
@@ -185,6 +201,14 @@ func runCase(c Case) (nt bool, classes []string, err error) {
 	anyCancel := c.SharedCancelUs > 0
 	results := make([]result, len(c.Callers))
 	var wg sync.WaitGroup
+	atomic.StoreInt64(&limiterGapUs, int64(c.LimiterGapUs))
+	defer atomic.StoreInt64(&limiterGapUs, 0)
+	var sharedHolderCtx context.Context
+	if c.Limit > 0 && c.ShareHolder {
+		var rel cl.ReleaseFunc
+		sharedHolderCtx, rel = cl.Acquire(shared)
+		defer rel()
+	}
 	start := time.Now()
 	if c.SharedCancelUs > 0 {
 		go func() { time.Sleep(time.Duration(c.SharedCancelUs) * time.Microsecond); cancelShared() }()
@@ -201,9 +225,13 @@ func runCase(c Case) (nt bool, classes []string, err error) {
 				time.Sleep(d)
 			}
 			ctx := shared
+			sharesHolder := sharedHolderCtx != nil && (c.Limit == 1 || i%2 == 0)
+			if sharesHolder {
+				ctx = sharedHolderCtx
+			}
 			var cancel context.CancelFunc = func() {}
 			if cr.OwnCtx || cr.Cancel == 1 || cr.Cancel == 2 {
-				ctx, cancel = context.WithCancel(shared)
+				ctx, cancel = context.WithCancel(ctx)
 			}
 			defer cancel()
 			switch cr.Cancel {
@@ -213,7 +241,7 @@ func runCase(c Case) (nt bool, classes []string, err error) {
 				go func() { time.Sleep(time.Duration(cr.CancelUs) * time.Microsecond); cancel() }()
 			}
 			var release cl.ReleaseFunc = func() {}
-			if c.Limit > 0 {
+			if c.Limit > 0 && !sharesHolder {
 				ctx, release = cl.Acquire(ctx)
 			}
 			func() {
@@ -397,6 +425,10 @@ func genCase(t *rapid.T) Case {
 	if rapid.IntRange(0, 9).Draw(t, "sharedcancel") == 0 {
 		c.SharedCancelUs = rapid.IntRange(1, 3000).Draw(t, "scus")
 		c.CancelParent = rapid.Bool().Draw(t, "cancelparent")
+	}
+	if c.Limit > 0 {
+		c.ShareHolder = rapid.IntRange(0, 2).Draw(t, "shareholder") == 0
+		c.LimiterGapUs = rapid.SampledFrom([]int{0, 0, 100, 500}).Draw(t, "limitergap")
 	}
 	if rapid.Bool().Draw(t, "useyields") {
 		c.Yields = rapid.SliceOfN(rapid.SampledFrom([]int{0, 0, 1, 50, 300, 1200}), 0, 30).Draw(t, "yields")
